@@ -284,7 +284,7 @@ def _registry():
         (K + "interval_based/_tsf.py", "TimeSeriesForestClassifier"))
     add("rise", C, lambda p: RandomIntervalSpectralForest(**p), [ne], (K + "interval_based/_rise.py", "RandomIntervalSpectralForest"), minL=20)
     add("stsf", C, lambda p: SupervisedTimeSeriesForest(**p), [{"n_estimators": 3, "random_state": 1}],
-        (K + "interval_based/_stsf.py", "SupervisedTimeSeriesForest"), slow=True)
+        (K + "interval_based/_stsf.py", "SupervisedTimeSeriesForest"), slow=True, minL=16)
     add("boss", C, lambda p: BOSSEnsemble(**p), [{"max_ensemble_size": 4, "random_state": 1}, {"max_ensemble_size": 3, "random_state": 2}],
         (K + "dictionary_based/_boss.py", "BOSSEnsemble"), minL=16)
     add("iboss", C, lambda p: IndividualBOSS(**p), [{"window_size": 8, "word_length": 4, "random_state": 1},
@@ -300,7 +300,8 @@ def _registry():
     # levels > 1 only on univariate data: the multivariate branch of IndividualTDE.fit shifts the (word, level) tuple
     add("itde2", C, lambda p: IndividualTDE(**p), [{"window_size": 8, "word_length": 4, "levels": 2, "random_state": 1}],
         (K + "dictionary_based/_tde.py", "IndividualTDE"))
-    add("muse", C, lambda p: MUSE(**p), [{"random_state": 1}], (K + "dictionary_based/_muse.py", "MUSE"), uni=False, slow=True, minL=16)
+    # p_threshold=1: no chi-squared feature removal at fit (on these tiny panels it can remove every feature)
+    add("muse", C, lambda p: MUSE(**p), [{"random_state": 1, "p_threshold": 1.0}], (K + "dictionary_based/_muse.py", "MUSE"), uni=False, slow=True, minL=16)
     add("weasel", C, lambda p: WEASEL(**p), [{"random_state": 1}], (K + "dictionary_based/_weasel.py", "WEASEL"), slow=True, minL=16)
     add("colens", C, lambda p: ColumnEnsembleClassifier([
         ("a", TimeSeriesForestClassifier(n_estimators=3, random_state=1), [0]),
@@ -543,8 +544,8 @@ def meta_line(case):
     if out is None:
         out = meta_real(case)
     f = _fields(out)
-    if f.get("fit") != "ok":
-        return None
+    if f.get("fit") != "ok" or (f.get("b") != "ok" and case.get("valid")):
+        return None            # estimator-specific rejection of a valid panel: not modelled (the oracle reports it)
     u, k = meta_cfg(case)
     ops = []
     lab = bool(case.get("keepidx")) and case["base"] == "N"
@@ -564,9 +565,9 @@ def meta_oracle(case, out):
     f = _fields(out)
     tag = "%s.%s" % (case["est"], case["meth"])
     if f.get("fit") != "ok":
-        return [(tag + ":valid-fit-rejected", out)] if case.get("valid") else []
+        return [("%s:valid-fit-rejected:%s" % (tag, f.get("fit")), out)] if case.get("valid") else []
     if f["b"] != "ok":
-        return [(tag + ":valid-rejected", "batch rejected: " + f["b"])] if case.get("valid") else []
+        return [("%s:valid-rejected:%s" % (tag, f["b"]), "batch rejected: " + f["b"])] if case.get("valid") else []
     B = parse_rows(f["B"])
     res = []
     if len(B) != len(case["xa"]):
@@ -851,8 +852,12 @@ class _Walk:
               "ret": None, "guard": False, "consts": consts}
         self.block(fn.body, fr)
         self.stack.pop()
-        self.memo[key] = fr["ret"]
-        return fr["ret"]
+        ret = fr["ret"]
+        if ORDER.get(ret, 9) < ORDER["I"] and any(v == "I" for v in bound.values()) and \
+                any(isinstance(n, ast.Return) and n.value is not None for n in ast.walk(fn)):
+            ret = "I"               # implicit flows (branches on the instance's data): the result belongs to the instance
+        self.memo[key] = ret
+        return ret
 
     # -- statements
     def block(self, body, fr):
@@ -1160,6 +1165,9 @@ class _Walk:
                 self.how.add("parallel")
                 return self.ev(e.args[0], fr)
         argt = [self.ev(a.value if isinstance(a, ast.Starred) else a, fr) for a in e.args]
+        for k_, a_ in enumerate(e.args):                    # a container created for the current instance
+            if argt[k_] is None and isinstance(a_, ast.Name) and fr["depth"].get(a_.id, 0) > 0 and fr["loop"] > 0:
+                argt[k_] = "I"
         kwt = {k.arg: self.ev(k.value, fr) for k in e.keywords if k.arg}
         name = f.id if isinstance(f, ast.Name) else f.attr if isinstance(f, ast.Attribute) else None
         recv = self.ev(f.value, fr) if isinstance(f, ast.Attribute) else None
